@@ -247,7 +247,11 @@ class C10(F.PropCheck):
             prev_step = st['step']
         # ---- (3) convergence of a positioning task on a calibrated roller shutter (last TASK of the case, no command after it)
         idx = [i for i, x in enumerate(tl) if x[0][0] != 'CB']
-        if ttype == 0 and idx and tl[idx[-1]][0][0] == 'TASK' and idx[-1] > 0:
+        # A tilt target on a roller shutter (tilt not supported) is outside the quantifier of the property ("tilt targets for blinds";
+        # supla_esp_channel_set_value passes -1 unless value[1] is 10..110).  add_task stores it all the same, a later task inherits it,
+        # and task_processing then "tilts" by driving down to the end stop (docs/reports/C10.md, observation) — not judged here.
+        rs_tilt_target = any(x[0][0] == 'TASK' and x[0][1][1] != -1 for x in tl)
+        if ttype == 0 and not rs_tilt_target and idx and tl[idx[-1]][0][0] == 'TASK' and idx[-1] > 0:
             i0 = idx[-1]; (e, t_task, _, st0) = tl[i0]; before = tl[i0 - 1][3]
             target = min(e[1][0], 100)
             full_o, full_c = before['time1'], before['time2']
